@@ -42,6 +42,11 @@ def menu(k1s, k2s, tier):
     a, A, ab = k1s
     b, B = k2s
     maps = [((a, 2),), ((A, 1), (a, 2)), ((b, 1), (B, 2), (a, 1)), ((B, 1), (A, 2)), ((ab, 2), (b, 2)), ()]
+    # one exact spelling twice with another variant in between: the LAST write must win (pairs only; a dict cannot repeat a key)
+    for m in (((a, 1), (A, 2), (a, 1)), ((ab, 2), (a, 1), (ab, 2)), ((B, 1), (b, 2), (B, 1), (a, 2))):
+        ops.append(("update_pairs", m))
+    ops.append(("update_map_kw", ((a, 1), (A, 2)), ((a, 1),)))
+    ops.append(("update_map_kw", ((b, 2), (B, 1)), ((b, 2), (a, 2))))
     for m in maps:
         ops += [("update_map", m), ("update_pairs", m), ("or", m), ("ior", m), ("ror", m)]
         if all(isinstance(k, str) for k, _ in m):
@@ -67,6 +72,8 @@ def constructors(k1s, k2s):
                 out.append(("new_kw", combo))
     for combo in itertools.permutations([a, A, b], 2):
         out.append(("fromkeys", combo, 1))
+    out.append(("new_pairs", ((a, 1), (A, 2), (a, 1))))
+    out.append(("new_pairs", ((ab, 2), (A, 1), (ab, 2), (b, 1))))
     return out
 
 
@@ -180,6 +187,8 @@ def apply_real(cls, d, op, ref_items):
         return d.update(list(op[1])), d
     if name == "update_kw":
         return d.update(**dict(op[1])), d
+    if name == "update_map_kw":
+        return d.update(dict(op[1]), **dict(op[2])), d
     if name == "or":
         new = d | dict(op[1])
         assert type(new) is type(d), f"| returned {type(new).__name__}"
